@@ -233,7 +233,7 @@ type c08Body struct {
 
 // error texts a node can send (lighthouse message texts; teku uses its own duplicate text)
 func c08Bodies(client string) []c08Body {
-	dup := "Verification: PriorSyncCommitteeMessageKnown { validator_index: 1, slot: 2 }"
+	dup := c08LHDup
 	if client == "teku" {
 		dup = "Ignoring sync committee message as a duplicate was processed during validation"
 	}
@@ -256,6 +256,12 @@ func c08Bodies(client string) []c08Body {
 }
 
 var c08Current []c08Body
+
+// c08LHDup is the lighthouse text of the tolerated rejection of the submission kind under study (sync
+// committee messages by default; the contribution harnesses put the aggregator text in its place).
+var c08LHDup = "Verification: PriorSyncCommitteeMessageKnown { validator_index: 1, slot: 2 }"
+
+const c08LHDupContribution = "Verification: AggregatorAlreadyKnown(12345)"
 
 // VerifStub_json_Unmarshal stands for encoding/json.Unmarshal on the two error
 // response structs: it delivers what the real decoder delivers for the
@@ -284,7 +290,7 @@ func VerifStub_json_Unmarshal(data []byte, v any) error {
 					if b.sameIndex {
 						idx = 0
 					}
-					r.Failures = append(r.Failures, &lhErrorResponseFailure{Index: idx, Message: "Verification: PriorSyncCommitteeMessageKnown { validator_index: 1, slot: 2 }"})
+					r.Failures = append(r.Failures, &lhErrorResponseFailure{Index: idx, Message: c08LHDup})
 				default:
 					r.Failures = append(r.Failures, &lhErrorResponseFailure{Index: k, Message: "Invalid signature"})
 				}
@@ -327,6 +333,48 @@ func VerifC08_SyncMessageErrors() {
 		vnd.Assert(err != nil, "C08.syncmsg.rejection-that-is-not-all-duplicates-is-failure")
 	}
 	vnd.Assert(len(nd.msgs) == 1 && len(nd.msgs[0]) == 1, "C08.syncmsg.node-offered-the-messages")
+}
+
+// VerifC08_ContributionErrors: a rejected submission of sync committee contributions counts as accepted
+// only when the node is a lighthouse node and every failure it lists is the tolerated "aggregator
+// already known"; a rejection that lists no failure at all (an internal server error, an empty list), a
+// body that cannot be read, any other client's rejection and any list with another failure in it are
+// failures of the submission.
+func VerifC08_ContributionErrors() {
+	clients := []struct{ version, kind string }{{"Lighthouse/v5.1.0", "lighthouse"}, {"teku/v24.1", "teku"}, {"Prysm/v5", "prysm"}}
+	cl := clients[vnd.Choose("client", len(clients))]
+	c08LHDup = c08LHDupContribution
+	c08Current = c08Bodies(cl.kind)
+	b := c08Current[vnd.Choose("body", len(c08Current))]
+	vnd.Assume(!b.nilEntry) // the crash on a null entry is C16's subject
+	nd := &c08KNode{c08Node: c08Node{name: "node-a", client: cl.version, behave: bRejectOther, errText: b.text}}
+	s := c08New(time.Second, 2, []*c08KNode{nd})
+	err := s.SubmitSyncCommitteeContributions(context.Background(), []*altair.SignedContributionAndProof{{Message: &altair.ContributionAndProof{Contribution: &altair.SyncCommitteeContribution{Slot: 7}}}})
+	vnd.Quiesce()
+	tolerated := cl.kind == "lighthouse" && !b.parseFail && b.failures > 0 && b.allowed == b.failures
+	if tolerated {
+		vnd.Cover("C08.contriberr.tolerated")
+		vnd.Assert(err == nil, "C08.contriberr.all-already-known-is-success")
+	} else {
+		vnd.Cover("C08.contriberr.rejected")
+		vnd.Assert(err != nil, "C08.contriberr.rejection-that-is-not-all-already-known-is-failure")
+	}
+	vnd.Assert(len(nd.offered) == 1, "C08.contriberr.node-offered-the-contributions")
+}
+
+// VerifC16_ContributionErrorBody: no error body a node can send in answer to contributions crashes
+// the submitter.
+func VerifC16_ContributionErrorBody() {
+	clients := []struct{ version, kind string }{{"Lighthouse/v5.1.0", "lighthouse"}, {"teku/v24.1", "teku"}}
+	cl := clients[vnd.Choose("client", len(clients))]
+	c08LHDup = c08LHDupContribution
+	c08Current = c08Bodies(cl.kind)
+	b := c08Current[vnd.Choose("body", len(c08Current))]
+	nd := &c08KNode{c08Node: c08Node{name: "node-a", client: cl.version, behave: bRejectOther, errText: b.text}}
+	s := c08New(time.Second, 2, []*c08KNode{nd})
+	_ = s.SubmitSyncCommitteeContributions(context.Background(), []*altair.SignedContributionAndProof{{Message: &altair.ContributionAndProof{Contribution: &altair.SyncCommitteeContribution{Slot: 7}}}})
+	vnd.Quiesce()
+	vnd.Cover("C16.contriberr.survived")
 }
 
 // VerifC16_SyncMessageErrorBody: no error body a node can send crashes the submitter.
